@@ -20,6 +20,34 @@ mod verif_kani {
         h.io_ports[0] == 1 && h.io_ports[2] == 1 && h.io_ports[4] == 2 && h.io_ports[6] == 2
     }
 
+    static mut SLOT_CALLED: *const internals::SimDevice = std::ptr::null();
+    static mut SLOT_CALLS: u32 = 0;
+    static mut SLOT_ADDR: u16 = 0;
+    fn stub_slot_read(d: &mut internals::SimDevice, addr: u16, _e: bool) -> Option<u16> {
+        unsafe { SLOT_CALLED = d as *const _; SLOT_CALLS += 1; SLOT_ADDR = addr; }
+        kani::any()
+    }
+    #[kani::proof]
+    #[kani::stub(<internals::SimDevice as ExternalDevice>::io_read, stub_slot_read)]
+    #[kani::unwind(6)]
+    fn io_read_dispatch_slot() {
+        let ports: [u16; DEVICE_SLOTS] = kani::any();
+        let mut devices = Vec::with_capacity(8);
+        devices.push(internals::SimDevice::Null); devices.push(internals::SimDevice::Null);
+        devices.push(internals::SimDevice::Null); devices.push(internals::SimDevice::Null);
+        let mut h = DeviceHandler { devices, io_ports: Box::new(ports) };
+        let p: u16 = kani::any();
+        kani::assume(match h.get_dev_id(p) { Some(d) => (d as usize) < 4, None => true });
+        let owner = h.get_dev_id(p);
+        let r = h.io_read(p, kani::any());
+        unsafe {
+            match owner {
+                None => { assert!(p < 0xFE00 && r.is_none() && SLOT_CALLS == 0); }
+                Some(d) => { assert!(p >= 0xFE00 && SLOT_CALLS == 1 && SLOT_ADDR == p); assert!(SLOT_CALLED == &h.devices[d as usize] as *const _); }
+            }
+        }
+    }
+
     // pointwise representation invariant: checked/assumed at symbolic witnesses only
     fn wf_at(h: &DeviceHandler, port: u16) -> bool {
         let n = h.devices.len();
@@ -31,7 +59,8 @@ mod verif_kani {
     fn add_device_pointwise() {
         let ports: [u16; DEVICE_SLOTS] = kani::any();
         let extra: bool = kani::any();
-        let mut devices = vec![internals::SimDevice::Null, internals::SimDevice::Null, internals::SimDevice::Null];
+        let mut devices = Vec::with_capacity(8);
+        devices.push(internals::SimDevice::Null); devices.push(internals::SimDevice::Null); devices.push(internals::SimDevice::Null);
         if extra { devices.push(internals::SimDevice::Null); }
         let mut h = DeviceHandler { devices, io_ports: Box::new(ports) };
         let n0 = h.devices.len();
@@ -40,14 +69,13 @@ mod verif_kani {
         kani::assume(wf_at(&h, p) && wf_at(&h, probe));
         let owner_probe0 = h.get_dev_id(probe);
         let owner_p0 = h.get_dev_id(p);
-        let r = h.add_device(Rec, &[p]);
+        let r = h.add_device(NullDevice, &[p]);
         match r {
             Ok(id) => {
                 assert!(p >= 0xFE00 && owner_p0 == Some(0));
                 assert!(id as usize == n0 && h.devices.len() == n0 + 1);
                 assert!(h.get_dev_id(p) == Some(id));
                 if probe != p { assert!(h.get_dev_id(probe) == owner_probe0); }
-                assert!(h.io_read(p, true) == Some(0x55));
             }
             Err(_) => {
                 assert!(!(p >= 0xFE00 && owner_p0 == Some(0)));
